@@ -375,15 +375,15 @@ open Ipv8 (Bytes) in
 /-- toy byte-level scheme for the examples: one-byte "signature" = length of the message -/
 def toyB : BCrypto :=
   { keyOk := fun pk => !pk.isEmpty, sigLen := fun _ => 1,
-    verify := fun _ m s => s == [UInt8.ofNat m.length] }
+    verify := fun _ m s => s == [UInt8.ofNat m.length], canon := fun pk => pk.take 1 }
 
 open Ipv8 (Bytes) in
 /-- `unserialize_value` returns a signed triple only if the three fields parse at offset 1, the key parses, and
     `is_valid_signature(key, value[:-n], value[-n:])` holds for that key's signature length n — for every byte string. -/
-theorem unserializeB_signed_sound (B : BCrypto) (v d pk : Ipv8.Bytes) (ver : Nat)
-    (h : unserializeB B v = .ok d (some pk) ver) :
-    (∃ o3, readSigned v = some (d, ver, pk, o3)) ∧ B.keyOk pk = true ∧
-    B.verify pk (pyButLast v (B.sigLen pk)) (pyLast v (B.sigLen pk)) = true := by
+theorem unserializeB_signed_sound (B : BCrypto) (v d pk' : Ipv8.Bytes) (ver : Nat)
+    (h : unserializeB B v = .ok d (some pk') ver) :
+    ∃ pk o3, readSigned v = some (d, ver, pk, o3) ∧ pk' = B.canon pk ∧ B.keyOk pk = true ∧
+      B.verify pk (pyButLast v (B.sigLen pk)) (pyLast v (B.sigLen pk)) = true := by
   unfold unserializeB at h
   split at h
   · simp at h
@@ -392,18 +392,17 @@ theorem unserializeB_signed_sound (B : BCrypto) (v d pk : Ipv8.Bytes) (ver : Nat
     · split at h
       · split at h
         · simp at h
-        · rename_i data ver' pk' o3 hrs
+        · rename_i data ver' pk o3 hrs
           split at h
           · split at h
             · rename_i hk hv
               simp only [BUnser.ok.injEq, Option.some.injEq] at h
               obtain ⟨h1, h2, h3⟩ := h
-              subst h1; subst h2; subst h3
-              exact ⟨⟨o3, hrs⟩, hk, hv⟩
+              subst h1; subst h3
+              exact ⟨pk, o3, hrs, h2.symm, hk, hv⟩
             · simp at h
           · simp at h
       · simp at h
-
 
 open Ipv8 (Bytes) in
 /-- The signed message itself parses to the same data, version and key whenever the payload does not reach into the
@@ -439,7 +438,7 @@ open Ipv8 (Bytes) in
     signature length and verifies. -/
 theorem unserialize_serialize_signed (B : BCrypto) (sign : Bytes → Bytes) (data pk : Bytes) (ver : Nat)
     (hd : data.length < 65536) (hp : pk.length < 65536) (hv : ver < 4294967296)
-    (hk : B.keyOk pk = true) (hn : 0 < B.sigLen pk)
+    (hk : B.keyOk pk = true) (hc : B.canon pk = pk) (hn : 0 < B.sigLen pk)
     (hl : (sign (signedBody data ver pk)).length = B.sigLen pk)
     (hs : B.verify pk (signedBody data ver pk) (sign (signedBody data ver pk)) = true) :
     unserializeB B (serializeSigned sign data ver pk) = .ok data (some pk) ver := by
@@ -468,7 +467,7 @@ theorem unserialize_serialize_signed (B : BCrypto) (sign : Bytes → Bytes) (dat
   have hrs' : readSigned (serializeSigned sign data ver pk)
       = some (data, ver, pk, (signedBody data ver pk).length) := hrs
   rw [hrs']
-  simp only [hk, if_true, hlast, hbut, hs]
+  simp only [hk, if_true, hlast, hbut, hs, hc]
   have t3 : ¬ Gen.entryStrSigned = Gen.entryStr := by decide
   rw [if_neg t3]
 
@@ -480,6 +479,9 @@ theorem unserialize_serialize_plain (B : BCrypto) (data : Bytes) :
   simp [t]
 
 example : unserializeB toyB (serializeSigned (fun m => [UInt8.ofNat m.length]) [1, 2] 5 [9]) = .ok [1, 2] (some [9]) 5 := by
+  decide
+/-- two byte strings of one key are reported as one signer -/
+example : unserializeB toyB (serializeSigned (fun m => [UInt8.ofNat m.length]) [1, 2] 5 [9, 7]) = .ok [1, 2] (some [9]) 5 := by
   decide
 example : unserializeB toyB (serializeSigned (fun _ => [0]) [1, 2] 5 [9]) = .none := by decide
 example : unserializeB toyB [1, 0, 2, 1] = .raise := by decide
@@ -525,14 +527,69 @@ theorem put_version_monotone (key : Nat) (nv : Value) (l : Items) (hn : IdsNodup
     · exact ⟨v, hv, rfl, Nat.le_refl _⟩
   · exact ⟨v, (mem_sortOwn ..).mpr (List.mem_cons_of_mem _ hv), rfl, Nat.le_refl _⟩
 
+/-- `add_value` never lowers a stored version (and never drops an id) -/
+theorem addValue_versions_kept {Tok : Type} (C : Crypto Tok) (now key : Nat) (b : Blob) (maxAge : Nat) (s s' : Storage)
+    (hw : s.WF) (he : addValue C now key b maxAge s = some s') : VersionsKept s s' := by
+  unfold addValue at he
+  split at he
+  · simp at he
+  · simp only [Option.some.injEq] at he; rw [← he]; exact versionsKept_refl s
+  · simp only [Option.some.injEq] at he
+    rw [← he]
+    intro k v hv
+    unfold Storage.put
+    rw [getItems_setItems]
+    split
+    · rename_i hk
+      subst hk
+      exact put_version_monotone k _ _ (hw k) v hv
+    · exact ⟨v, hv, rfl, Nat.le_refl _⟩
+
+theorem addValues_versions_kept {Tok : Type} (C : Crypto Tok) (now key maxAge : Nat) (bs : List Blob) (s : Storage)
+    (hw : s.WF) : VersionsKept s (addValues C now key maxAge bs s).1 := by
+  induction bs generalizing s with
+  | nil => simpa [addValues] using versionsKept_refl s
+  | cons b bs ih =>
+    simp only [addValues]
+    split
+    · exact versionsKept_refl s
+    · rename_i s' he
+      exact versionsKept_trans s s' _ (addValue_versions_kept C now key b maxAge s s' hw he)
+        (ih s' (wf_addValue C now key b maxAge s s' hw he))
+
+/-- In every reachable state, handling a store request (accepted or not, whatever it contains) and the node's own
+    `store_on_nodes` keep every stored id with a version at least as high as before.  (Versions can only go down after
+    the newer value expired and maintenance removed it — see `expired_gone_after_clean`; there is deliberately no
+    "monotone across all histories" statement, it would be false.) -/
+theorem store_and_cache_keep_versions {Tok : Type} [DecidableEq Tok] (C : Crypto Tok) (t0 : Nat) (ops : List (Op Tok)) :
+    (∀ r : StoreReq Tok, VersionsKept ((Node.init t0).run C ops).store
+        ((((Node.init t0).run C ops).storeReq C r).1.store)) ∧
+    (∀ key values loc, VersionsKept ((Node.init t0).run C ops).store
+        ((((Node.init t0).run C ops).cacheStore C key values loc).store)) := by
+  have hinv := inv_run C ops (Node.init t0) ⟨tokInv_init t0, by simpa [Node.init] using wf_nil⟩
+  generalize (Node.init t0).run C ops = n at hinv
+  constructor
+  · intro r
+    unfold Node.storeReq
+    split
+    · exact versionsKept_refl _
+    · split
+      · exact versionsKept_refl _
+      · exact addValues_versions_kept C _ _ _ _ _ hinv.wf
+  · intro key values loc
+    unfold Node.cacheStore
+    split
+    · exact addValues_versions_kept C _ _ _ _ _ hinv.wf
+    · exact versionsKept_refl _
+
 /-- In every reachable node state there is at most one stored value per id (signer) under each key — the hypothesis of
     `put_version_monotone` holds in all histories. -/
 theorem one_value_per_signer {Tok : Type} [DecidableEq Tok] (C : Crypto Tok) (t0 : Nat) (ops : List (Op Tok)) (k : Nat) :
     IdsNodup (((Node.init t0).run C ops).store.getItems k) :=
   (inv_run C ops (Node.init t0) ⟨tokInv_init t0, by simpa [Node.init] using wf_nil⟩).wf k
 
-example : putItems 0 ⟨7, 2, 10, 60, 1⟩ [⟨7, 1, 0, 60, 3⟩] = [⟨7, 1, 0, 60, 3⟩] := by decide
-example : putItems 0 ⟨7, 2, 10, 60, 3⟩ [⟨7, 1, 0, 60, 3⟩] = [⟨7, 2, 10, 60, 3⟩] := by decide
+example : putItems 0 ⟨7, 2, 10, 60, 1, default⟩ [⟨7, 1, 0, 60, 3, default⟩] = [⟨7, 1, 0, 60, 3, default⟩] := by decide
+example : putItems 0 ⟨7, 2, 10, 60, 3, default⟩ [⟨7, 1, 0, 60, 3, default⟩] = [⟨7, 2, 10, 60, 3, default⟩] := by decide
 
 /-! ## expiry -/
 
@@ -565,7 +622,40 @@ theorem no_expired_after_maintenance (n : Node) (k start : Nat) (limit : Option 
   exact ⟨v, (hmem v hv').1, rfl, (hmem v hv').2⟩
 
 /-- differing lifetimes: the expired value in front of a longer-lived one is removed -/
-example : cleanItems 100 [⟨1, 1, 50, 10, 0⟩, ⟨2, 2, 0, 3600, 0⟩] = [⟨2, 2, 0, 3600, 0⟩] := by decide
+example : cleanItems 100 [⟨1, 1, 50, 10, 0, default⟩, ⟨2, 2, 0, 3600, 0, default⟩] = [⟨2, 2, 0, 3600, 0, default⟩] := by decide
+
+/-! ## provenance of everything that is stored (all histories, including the node's own caching) -/
+
+/-- In every reachable state — histories now include the node's own `store_on_nodes` / lookup caching (`Op.cache`), which
+    writes the same storage without any token — every stored value is within MAX_ENTRY_SIZE and is either a plain entry
+    stored under its own hash with version 0, or a signed entry whose signature verifies under the key it names, stored under
+    the hash of that (canonical) key with exactly the signed version. -/
+theorem stored_values_authentic_and_within_size {Tok : Type} [DecidableEq Tok] (C : Crypto Tok) (t0 : Nat)
+    (ops : List (Op Tok)) (k : Nat) :
+    ∀ v ∈ ((Node.init t0).run C ops).store.getItems k, Stored C v :=
+  allStored_run C ops (Node.init t0) (by intro k v hv; simp [Node.init, Storage.getItems] at hv) k
+
+/-- the local store of `store_on_nodes` applies the size filter and the count cap -/
+theorem local_store_within_limits (vs : List Blob) :
+    (keepLocal vs).length ≤ Gen.maxValuesInStore ∧ ∀ v ∈ keepLocal vs, v.len ≤ Gen.maxEntrySize := by
+  refine ⟨?_, keepLocal_sizes vs⟩
+  unfold keepLocal
+  simp only [Gen.localKeep, Gen.localCap, List.length_take]
+  exact Nat.min_le_left _ _
+
+example : (Node.cacheStore toyC (Node.init 0) 7
+    [{ uid := 1, len := 5001, hid := 9, wire := .str 4 }, { uid := 2, len := 20, hid := 8, wire := .str 5 }] true).store
+    = [(7, [{ id := 8, data := 2, lastUpdate := 0, maxAge := 3600, version := 0,
+              src := { uid := 2, len := 20, hid := 8, wire := .str 5 } }])] := by decide
+
+/-- In every reachable state a maintenance run is less than one value_maintenance interval away, and that interval does not
+    exceed the longest lifetime: an expired value is removed at most MAX_ENTRY_AGE seconds after it expired. -/
+theorem maintenance_is_never_far {Tok : Type} [DecidableEq Tok] (C : Crypto Tok) (t0 : Nat) (ops : List (Op Tok)) :
+    ((Node.init t0).run C ops).now < ((Node.init t0).run C ops).nextClean ∧
+    ((Node.init t0).run C ops).nextClean ≤ ((Node.init t0).run C ops).now + Gen.valueMaintenanceInterval ∧
+    Gen.valueMaintenanceInterval ≤ Gen.maxEntryAge := by
+  obtain ⟨h1, h2⟩ := cleanInv_run C ops (Node.init t0) (cleanInv_init t0)
+  exact ⟨h1, h2, by decide⟩
 
 /-! ## the property, sentence by sentence, in every reachable state -/
 
@@ -575,7 +665,10 @@ example : cleanItems 100 [⟨1, 1, 50, 10, 0⟩, ⟨2, 2, 0, 3600, 0⟩] = [⟨2
     (2) a lookup over any value list reports a signer only with the data of a verifying value of that signer whose
         version is maximal among the signer's verifying values;
     (3) a put of an older version than the stored one changes nothing, and there is one value per signer under every key;
-    (4) after maintenance no stored value is expired. -/
+    (4) after maintenance no stored value is expired;
+    (5) every stored value is within the size limit, authentic, and stored under its signer's id and signed version.
+    Only (1) (freshness of the secret), the one-value-per-signer part of (3) and (5) use that the state is reachable; (2), the
+    first half of (3) and (4) hold for arbitrary states / value lists and are instantiated here. -/
 theorem c15_all_histories {Tok : Type} [DecidableEq Tok] (C : Crypto Tok) (t0 : Nat) (ops : List (Op Tok)) :
     (∀ r : StoreReq Tok,
       ((((Node.init t0).run C ops).storeReq C r).1.store ≠ ((Node.init t0).run C ops).store ∨
@@ -592,8 +685,9 @@ theorem c15_all_histories {Tok : Type} [DecidableEq Tok] (C : Crypto Tok) (t0 : 
       nv.version < old.version →
       ∀ k', (((Node.init t0).run C ops).store.put k nv).getItems k' = ((Node.init t0).run C ops).store.getItems k') ∧
     (∀ k, IdsNodup (((Node.init t0).run C ops).store.getItems k)) ∧
-    (∀ k, ∀ v ∈ ((Node.init t0).run C ops).clean.store.getItems k, v.expired ((Node.init t0).run C ops).now = false) := by
-  refine ⟨?_, ?_, ?_, ?_, ?_⟩
+    (∀ k, ∀ v ∈ ((Node.init t0).run C ops).clean.store.getItems k, v.expired ((Node.init t0).run C ops).now = false) ∧
+    (∀ k, ∀ v ∈ ((Node.init t0).run C ops).store.getItems k, Stored C v) := by
+  refine ⟨?_, ?_, ?_, ?_, ?_, ?_⟩
   · intro r h
     obtain ⟨h1, h2, h3, _⟩ := store_requires_token C _ r h
     obtain ⟨sb, hs, he, hf⟩ := accepted_token_is_fresh C t0 ops r h
@@ -606,5 +700,7 @@ theorem c15_all_histories {Tok : Type} [DecidableEq Tok] (C : Crypto Tok) (t0 : 
     exact one_value_per_signer C t0 ops k
   · intro k
     exact (no_expired_after_maintenance _ k 0 none).1
+  · intro k
+    exact stored_values_authentic_and_within_size C t0 ops k
 
 end Ipv8.C15
